@@ -1005,6 +1005,44 @@ func runClusterSearch(c *Ctx, r *Rng, shape [3]int) {
 				c.Violate("C17", "C17/partial-sum", fmt.Sprintf("one remote replica took 2.6 s to answer while the caller's context was alive: SizeInfo reported %d items with success, the partitions hold %d", l, nItems), c.History())
 			}
 			c.Nontrivial("slow-lookup")
+			// two callers overlap and the first gives up (its context ends) while the remote lookups are
+			// still out: what the second is told is its own business — the full sum, or an error
+			cl.mu.Lock()
+			cl.dmHook = nil
+			cl.mu.Unlock()
+			octx, ono := newTrial()
+			cl.mu.Lock()
+			cl.dmHook = func(hctx context.Context, from, to uint64, method string, req interface{}) error {
+				if method != "PartitionInfo" || from != entry || trialOf(hctx) != ono {
+					return nil
+				}
+				select {
+				case <-time.After(400 * time.Millisecond):
+				case <-hctx.Done():
+					return status.FromContextError(hctx.Err()).Err()
+				}
+				return nil
+			}
+			cl.mu.Unlock()
+			actx, acancel := context.WithTimeout(octx, 100*time.Millisecond)
+			type sz struct {
+				l   uint64
+				err error
+			}
+			ra, rb := make(chan sz, 1), make(chan sz, 1)
+			go func() { l, _, err := cl.dataset(entry, dsId).SizeInfo(actx); ra <- sz{l, err} }()
+			time.Sleep(30 * time.Millisecond)
+			go func() { l, _, err := cl.dataset(entry, dsId).SizeInfo(octx); rb <- sz{l, err} }()
+			a, b := <-ra, <-rb
+			acancel()
+			c.OpLocal("two overlapping SizeInfo calls via node %d, remote lookups take 400 ms, the first caller's context ends after 100 ms: first -> len=%d err=%v; second (context alive) -> len=%d err=%v", entry, a.l, a.err, b.l, b.err)
+			if a.err == nil && int(a.l) != nItems {
+				c.Violate("C17", "C17/partial-sum", fmt.Sprintf("a caller whose context ended before the remote lookups answered was told %d items with success; the partitions hold %d", a.l, nItems), c.History())
+			}
+			if b.err == nil && int(b.l) != nItems {
+				c.Violate("C17", "C17/partial-sum", fmt.Sprintf("two SizeInfo calls overlapped and the first caller gave up: the second, whose context was alive, was told %d items with success; the partitions hold %d", b.l, nItems), c.History())
+			}
+			c.Nontrivial("overlapping-callers")
 		}
 		cl.mu.Lock()
 		cl.dmHook = nil
